@@ -53,9 +53,17 @@ pub fn change_names(max: usize) -> impl Strategy<Value = Vec<String>> {
         prop_oneof![
             6 => (0..SUBSYSTEMS.len()).prop_map(|i| SUBSYSTEMS[i].to_string()),
             1 => "[a-z_]{1,16}",
+            1 => wild_name(),
         ],
         1..=max,
     )
+}
+
+/// A subsystem name no released MPD sends: any length up to a few hundred bytes, characters of every
+/// UTF-8 width mixed (whatever offset a decoder cuts at, some name has a character straddling it).
+pub fn wild_name() -> impl Strategy<Value = String> {
+    prop::collection::vec(prop_oneof![4 => Just('x'), 2 => Just('\u{e9}'), 2 => Just('\u{65e5}'), 1 => Just('\u{1f3b5}'), 1 => Just('_'), 1 => Just('Q')], 1..120usize)
+        .prop_map(|v| v.into_iter().collect())
 }
 
 pub fn advance() -> impl Strategy<Value = Step> {
@@ -267,6 +275,44 @@ fn script_plain(change_weight: u32, max_names: usize, max_steps: usize) -> impl 
         ),
     )
         .prop_map(|(seed, seg, max_write, blocks)| assemble(seed, seg, max_write, blocks.concat()))
+}
+
+/// A long-lived connection: an early reply with many distinct field names, then dozens to hundreds of
+/// the little race scenarios back to back (the counters, caches and buffers of the connection are far
+/// from their initial state when the races happen).
+pub fn long_session_script() -> impl Strategy<Value = Script> {
+    in_environment(
+        (
+            any::<u64>(),
+            prop_oneof![3 => Just(SegPattern::Whole), 2 => Just(SegPattern::Lines), 1 => (2..20usize).prop_map(SegPattern::Chunk)],
+            prop_oneof![Just(0usize), Just(100), Just(257), Just(300), Just(600), Just(1100)],
+            prop::collection::vec(
+                prop_oneof![
+                    6 => race_block(),
+                    2 => gen_step(3, 3).prop_map(|s| vec![s]),
+                    1 => slow_reply_block(),
+                ],
+                30..160usize,
+            ),
+        )
+            .prop_map(|(seed, seg, keys, blocks)| {
+                let mut gen = Vec::new();
+                // the key-rich reply (fresh names every time) recurs every 20 blocks
+                let rich = |round: usize| {
+                    let c = |d: usize| (b'a' + (d % 26) as u8) as char;
+                    let fields = (0..keys).map(|i| (format!("w{}{}{}{}", c(round), c(i / 676), c(i / 26), c(i)), i.to_string())).collect();
+                    GenStep::Issue { caller: 0, kind: 0, replies: vec![ReplySpec::Ok { fields, binary: None }] }
+                };
+                for (i, b) in blocks.into_iter().enumerate() {
+                    if keys > 0 && i % 20 == 0 {
+                        gen.push(rich(i / 20));
+                    }
+                    gen.extend(b);
+                }
+                gen.push(GenStep::Plain(Step::ReleaseAll));
+                assemble(seed, seg, None, gen)
+            }),
+    )
 }
 
 pub fn fault() -> impl Strategy<Value = Fault> {
